@@ -100,7 +100,7 @@ Section GInd.
   Hypothesis HGComprehension : forall t it conds a, P t -> P it -> Forall P conds -> P (GComprehension t it conds a).
   Hypothesis HGDict : forall items, Forall PairP items -> P (GDict items).
   Hypothesis HGDictComp : forall k v gens, P k -> P v -> Forall P gens -> P (GDictComp k v gens).
-  Hypothesis HGFormatted : forall v, P v -> P (GFormatted v).
+  Hypothesis HGFormatted : forall v conv spec, P v -> OptP P spec -> P (GFormatted v conv spec).
   Hypothesis HGGeneratorExp : forall e gens, P e -> Forall P gens -> P (GGeneratorExp e gens).
   Hypothesis HGIfExp : forall b t o, P b -> P t -> P o -> P (GIfExp b t o).
   Hypothesis HGJoinedStr : forall vs, Forall P vs -> P (GJoinedStr vs).
@@ -145,7 +145,7 @@ Section GInd.
     | GComprehension t it conds a => HGComprehension t it conds a (gexpr_ind' t) (gexpr_ind' it) (fl conds)
     | GDict items => HGDict items (fd items)
     | GDictComp k v gens => HGDictComp k v gens (gexpr_ind' k) (gexpr_ind' v) (fl gens)
-    | GFormatted v => HGFormatted v (gexpr_ind' v)
+    | GFormatted v conv spec => HGFormatted v conv spec (gexpr_ind' v) (fo spec)
     | GGeneratorExp e gens => HGGeneratorExp e gens (gexpr_ind' e) (fl gens)
     | GIfExp b t o => HGIfExp b t o (gexpr_ind' b) (gexpr_ind' t) (gexpr_ind' o)
     | GJoinedStr vs => HGJoinedStr vs (fl vs)
